@@ -129,6 +129,9 @@ def gen_lines(rng, cls="plain", max_measures=6):
     out = []
     if rng.random() < 0.3:
         out += ["", "*---------------------- HEADER FIELD"]
+    if rng.random() < 0.15:
+        # command names are case-insensitive (the 2-character ids keep their case: they are matched against the data lines)
+        header = [((k[:3].lower() + k[3:]) if k[:3] in ("WAV", "BPM") and len(k) == 5 else k.lower(), v) for k, v in header]
     out += [f"#{k} {v}" for k, v in header]
     if rng.random() < 0.5:
         out += ["", "*---------------------- MAIN DATA FIELD", ""]
